@@ -25,7 +25,20 @@ def main():
         print("compiled extension shadowing the Python sources", file=sys.stderr)
         sys.exit(3)
     mod = importlib.import_module("vf.props.%s" % pid.lower())
-    res = mod.run_shard(spec)
+    cov = None
+    if os.environ.get("VF_COVERAGE"):
+        # development aid (tools/coverage.sh): line coverage of the scratch fastavro copy
+        import coverage
+
+        cov = coverage.Coverage(data_file=os.path.join(os.environ["VF_COVERAGE"], "cov-%s-%s" % (pid, spec.get("shard", 0))),
+                                include=[os.path.join(scratch, "fastavro", "*")])
+        cov.start()
+    try:
+        res = mod.run_shard(spec)
+    finally:
+        if cov is not None:
+            cov.stop()
+            cov.save()
     with open(outf + ".tmp", "w") as f:
         json.dump(res, f, default=str)
     os.replace(outf + ".tmp", outf)
